@@ -283,6 +283,34 @@ func corruptions(v interface{}, limit int, r *fw.Rand) [][]byte {
 				out = append(out, b)
 			}
 		}
+		// optional members that valid samples never carry, added to every object with empty / odd values
+		if mv, ok := gen.ValueAt(g, p).(map[string]interface{}); ok && len(out) < limit {
+			for _, name := range []string{"crit", "b64", "typ", "cty", "zip", "nonce", "anchorFrom", "anchorUntil", "revealValue", "anchorOrigin", "type", "purposes", "priority", "d", "kid", "alg", "use", "x5c", "jwk", "patches", "ids", "uris", "document", "", "\u00e9"} {
+				if _, exists := mv[name]; exists {
+					continue
+				}
+				vals := []interface{}{[]interface{}{}, map[string]interface{}{}, nil, "", 0, []interface{}{[]interface{}{}}, []interface{}{nil}, true, "x", -1}
+				if len(mv) > 4 || len(paths) > 12 {
+					// large artefacts: one value per name; small ones (JWS headers, JWKs): every value
+					if r.Intn(3) != 0 {
+						continue
+					}
+					vals = []interface{}{fw.Pick(r, vals)}
+				}
+				for _, val := range vals {
+					nm := map[string]interface{}{}
+					for k, v := range mv {
+						nm[k] = v
+					}
+					nm[name] = val
+					if c := gen.ReplaceAt(g, p, nm); c != nil {
+						if b, err := json.Marshal(c); err == nil {
+							out = append(out, b)
+						}
+					}
+				}
+			}
+		}
 		// strings keep their length or nearly so: one character replaced by a line break / blank / padding sign (Go's base64 decoders
 		// skip \r and \n, so such a text decodes to fewer bytes than its length promises), one inserted, a multi-byte character
 		if sv, ok := gen.ValueAt(g, p).(string); ok && len(sv) > 0 && len(sv) < 1<<12 && len(out) < limit {
